@@ -107,7 +107,10 @@ var srvSets = map[string][]srvRec{
 }
 
 var cur struct {
-	mu     sync.Mutex
+	mu sync.Mutex
+	// world, when set, holds one scenario per server name that serves a well-known document of its own (request
+	// sequences through one client); sc then only carries the union of the SRV records
+	world  map[string]*scenario
 	sc     *scenario
 	wkHits []string
 	dnsQ   []string
@@ -133,8 +136,17 @@ func (wkTransport) RoundTrip(req *http.Request) (*http.Response, error) {
 	if req.URL.Path != "/.well-known/matrix/server" || req.URL.Scheme != "https" {
 		return mk(404, nil, nil, 0), nil
 	}
-	// only the scenario's own name serves a well-known document; delegated names never do
-	if req.URL.Host != sc.Name {
+	cur.mu.Lock()
+	world := cur.world
+	cur.mu.Unlock()
+	if world != nil {
+		w, ok := world[req.URL.Host]
+		if !ok {
+			return mk(404, []byte("{}"), nil, 2), nil
+		}
+		sc = w
+	} else if req.URL.Host != sc.Name {
+		// only the scenario's own name serves a well-known document; delegated names never do
 		return mk(404, []byte("{}"), nil, 2), nil
 	}
 	wk := sc.WellKnown
@@ -441,7 +453,7 @@ func checkDispatch(r *harness.Run, c dispCase) error {
 	r.Eval()
 	sc := c.Scenario
 	cur.mu.Lock()
-	cur.sc, cur.wkHits, cur.dnsQ = &sc, nil, nil
+	cur.sc, cur.wkHits, cur.dnsQ, cur.world = &sc, nil, nil, nil
 	cur.mu.Unlock()
 	targets, wantErr, either := refResolve(&sc)
 	if wantErr || either {
@@ -555,6 +567,109 @@ func checkDispatch(r *harness.Run, c dispCase) error {
 	return nil
 }
 
+// seqCase: several requests through ONE client (one transport cache, one resolution cache). Every name resolves as it
+// would on its own: what was learnt while talking to one server says nothing about another, even when the first delegated
+// to the second.
+type seqCase struct {
+	World    map[string]string // server name -> well-known mode of that name (absent = serves none)
+	SRV      map[string]string
+	Requests []string
+}
+
+func checkDispatchSeq(r *harness.Run, c seqCase) error {
+	r.Eval()
+	world := map[string]*scenario{}
+	for n, wk := range c.World {
+		world[n] = &scenario{Name: n, WellKnown: wk, SRV: c.SRV}
+	}
+	union := scenario{Name: "", WellKnown: "absent", SRV: c.SRV}
+	cur.mu.Lock()
+	cur.sc, cur.wkHits, cur.dnsQ, cur.world = &union, nil, nil, world
+	cur.mu.Unlock()
+	defer func() {
+		cur.mu.Lock()
+		cur.world = nil
+		cur.mu.Unlock()
+	}()
+	var mu sync.Mutex
+	var seen []attempt
+	tr := fclient.VerifNewTripper(true)
+	mk := func(sni string) *http.Transport {
+		return &http.Transport{DisableKeepAlives: true, DialTLSContext: func(ctx context.Context, network, addr string) (net.Conn, error) {
+			cl, sv := net.Pipe()
+			mu.Lock()
+			pos := len(seen)
+			seen = append(seen, attempt{SNI: sni, Addr: addr})
+			mu.Unlock()
+			go func() {
+				defer sv.Close()
+				req, err := http.ReadRequest(bufioReader(sv))
+				if err != nil {
+					return
+				}
+				mu.Lock()
+				seen[pos].Host = req.Host
+				mu.Unlock()
+				_, _ = sv.Write([]byte("HTTP/1.1 200 OK\r\nContent-Length: 2\r\nConnection: close\r\n\r\n{}"))
+			}()
+			return cl, nil
+		}}
+	}
+	// expected first target per request, each name resolved on its own
+	var want []attempt
+	names := map[string]bool{"": true}
+	for _, name := range c.Requests {
+		sc := world[name]
+		if sc == nil {
+			sc = &scenario{Name: name, WellKnown: "absent", SRV: c.SRV}
+		}
+		targets, wantErr, either := refResolve(sc)
+		if wantErr || either || len(targets) == 0 {
+			return nil
+		}
+		want = append(want, attempt{SNI: targets[0].SNI, Addr: targets[0].Dest, Host: targets[0].Host})
+	}
+	for n := range c.World {
+		names[n] = true
+	}
+	for _, w := range want {
+		names[w.SNI], names[w.Host], names[w.Addr] = true, true, true
+		if h, _, err := net.SplitHostPort(w.Addr); err == nil {
+			names[h] = true
+		}
+	}
+	for n := range names {
+		tr.SetTransport(n, mk(n))
+	}
+	for i, name := range c.Requests {
+		req, _ := http.NewRequest("GET", "matrix://"+name+"/_matrix/federation/v1/version", nil)
+		var resp *http.Response
+		var err error
+		if p, msg := harness.Try(func() { resp, err = tr.RoundTrip(req) }); p {
+			return fmt.Errorf("RoundTrip panics: %s", msg)
+		}
+		if resp != nil {
+			_, _ = io.ReadAll(resp.Body)
+			_ = resp.Body.Close()
+		}
+		if err != nil {
+			return fmt.Errorf("requests %v: request %d (to %s) failed: %v", c.Requests, i, name, err)
+		}
+		mu.Lock()
+		got := append([]attempt(nil), seen...)
+		mu.Unlock()
+		if len(got) != i+1 {
+			return fmt.Errorf("requests %v: after request %d (to %s) the connection attempts are %+v, expected %+v", c.Requests, i, name, got, want[:i+1])
+		}
+		if got[i] != want[i] {
+			return fmt.Errorf("requests %v through one client: request %d (to %s) went to %+v, the specification assigns %+v (well-known documents %v)", c.Requests, i, name, got[i], want[i], c.World)
+		}
+	}
+	r.Outcome(fmt.Sprintf("dispatch-seq-%d", len(c.Requests)))
+	r.Nontrivial("dispseq:" + harness.J(c))
+	return nil
+}
+
 func bufioReader(c net.Conn) *bufio.Reader { return bufio.NewReader(c) }
 
 func main() { harness.Main("C16", "model_checking", run) }
@@ -564,7 +679,7 @@ func run(r *harness.Run) {
 	http.DefaultTransport = wkTransport{}
 	stop := startDNS()
 	defer stop()
-	r.Rule("(policy) every allow list x deny list of <= K entries over 10 CIDR entries (v4/v6 ranges, nested ranges, host-bits-set, unparsable entries in every position) x 22 addresses on and around every range edge (incl. IPv4-mapped IPv6, zones, malformed host:port) x 6 network types, through the real dialer control function, vs a net/netip reference; (resolution) 14 server names x 13 well-known outcomes x every assignment of {none, empty, servfail, one record, several records, trailing-dot/no-dot targets} to the _matrix-fed and _matrix SRV names of the server and of the delegated name, through the real ResolveServer with http.DefaultTransport / net.DefaultResolver replaced by in-process stubs, vs the specification's steps (destination, Host, TLS name per step; no second well-known lookup); (well-known) every outcome x 12 cache-header combinations through LookupWellKnown under a virtual clock; (dispatch) 9 resolution shapes x every success/failure plan of the first and the retry pass through the real transport cache's RoundTrip with scripted in-memory connections: the address dialled, the TLS server name and the Host header of every attempt vs the specification. Non-trivial = distinct resolved scenario.")
+	r.Rule("(policy) every allow list x deny list of <= K entries over 10 CIDR entries (v4/v6 ranges, nested ranges, host-bits-set, unparsable entries in every position) x 22 addresses on and around every range edge (incl. IPv4-mapped IPv6, zones, malformed host:port) x 6 network types, through the real dialer control function, vs a net/netip reference; (resolution) 14 server names x 13 well-known outcomes x every assignment of {none, empty, servfail, one record, several records, trailing-dot/no-dot targets} to the _matrix-fed and _matrix SRV names of the server and of the delegated name, through the real ResolveServer with http.DefaultTransport / net.DefaultResolver replaced by in-process stubs, vs the specification's steps (destination, Host, TLS name per step; no second well-known lookup); (well-known) every outcome x 12 cache-header combinations through LookupWellKnown under a virtual clock; (dispatch) 9 resolution shapes x every success/failure plan of the first and the retry pass through the real transport cache's RoundTrip with scripted in-memory connections: the address dialled, the TLS server name and the Host header of every attempt vs the specification; sequences of 2-3 requests over 4 names through ONE client in worlds where two names serve well-known documents of their own (4 x 3 documents x 3 SRV sets): every request must go where its name resolves on its own. Non-trivial = distinct resolved scenario.")
 	r.Assume("net/netip decides CIDR membership", "a DNS failure other than not-found on _matrix-fed and a delegated name that is itself invalid are unspecified: either outcome is accepted", "SRV records of equal priority are shuffled by Go's resolver: test records have distinct priorities")
 	r.OnReplay("policy", func(raw json.RawMessage) error {
 		var c polCase
@@ -580,6 +695,13 @@ func run(r *harness.Run) {
 		var c wkCase
 		_ = json.Unmarshal(raw, &c)
 		return checkWellKnown(r, c)
+	})
+	r.OnReplay("dispatch-seq", func(raw json.RawMessage) error {
+		var c seqCase
+		if err := json.Unmarshal(raw, &c); err != nil {
+			return err
+		}
+		return checkDispatchSeq(r, c)
 	})
 	r.OnReplay("dispatch", func(raw json.RawMessage) error {
 		var c dispCase
@@ -726,6 +848,38 @@ func run(r *harness.Run) {
 			r.Violation("dispatch:"+harness.J(c), err.Error(), "dispatch", c)
 		}
 	}
+	// request sequences through one client: what one name delegated to must not be taken for the resolution of another
+	var seqs []seqCase
+	wkA := []string{`json:{"m.server":"b.org"}`, `json:{"m.server":"b.org:8443"}`, `json:{"m.server":"c.org"}`, "absent"}
+	wkB := []string{`json:{"m.server":"c.org:443"}`, `json:{"m.server":"a.org"}`, "absent"}
+	srvB := []map[string]string{{}, {"_matrix-fed._tcp.b.org.": "fed1"}, {"_matrix._tcp.b.org.": "old1", "_matrix-fed._tcp.c.org.": "fed2"}}
+	reqNames := []string{"a.org", "b.org", "c.org", "b.org:8443"}
+	var seqNames [][]string
+	for _, x := range reqNames {
+		for _, y := range reqNames {
+			seqNames = append(seqNames, []string{x, y})
+			for _, z := range reqNames {
+				if r.Thorough() || z == x {
+					seqNames = append(seqNames, []string{x, y, z})
+				}
+			}
+		}
+	}
+	for _, a := range wkA {
+		for _, b := range wkB {
+			for _, srv := range srvB {
+				for _, rq := range seqNames {
+					seqs = append(seqs, seqCase{World: map[string]string{"a.org": a, "b.org": b}, SRV: srv, Requests: rq})
+				}
+			}
+		}
+	}
+	for _, c := range seqs {
+		if err := checkDispatchSeq(r, c); err != nil {
+			r.Violation("dispatch-seq:"+harness.J(c), err.Error(), "dispatch-seq", c)
+		}
+	}
+	r.Count("dispatch_sequences", int64(len(seqs)))
 	r.Count("dispatch_cases", int64(len(disp)))
 	r.Sample("dispatch", disp[len(disp)/2])
 	// well-known acceptance + lifetime
